@@ -4,30 +4,61 @@
 (* cuts the output into behaviours and replays them against the real code (`hqv cluster guided`).                  *)
 EXTENDS MC_HQ, Json
 
-VARIABLES depth, lastAct, gate
+VARIABLES depth, lastAct, gate, sig
 \* gate: earliest depth of the first loss / cancel / task failure (drawn at the start; without it uniform simulation
 \* takes the faults first and most behaviours end before any task ran)
 Gates == {0, 4, 8, 12, 16, 24, 32}
 
-SimInit == Init /\ depth = 0 /\ lastAct = [c |-> "Init"] /\ gate \in [lose : Gates, cancel : Gates, fail : Gates]
+SimInit == Init /\ depth = 0 /\ lastAct = [c |-> "Init"] /\ gate \in [lose : Gates, cancel : Gates, fail : Gates] /\ sig = <<"Init">>
 
 Lab(a) == /\ depth' = depth + 1 /\ lastAct' = a /\ UNCHANGED gate
 
-SimNext ==
-  \/ \E i \in DOMAIN Menu : ClientSubmit(i) /\ Lab([c |-> "Submit", spec |-> i - 1, job |-> Menu[i].job])
-  \/ \E j \in DOMAIN OpenJobs : ClientOpen(j) /\ Lab([c |-> "Open", job |-> j])
-  \/ \E j \in DOMAIN OpenJobs : ClientClose(j) /\ Lab([c |-> "Close", job |-> j])
-  \/ \E j \in DOMAIN job : depth >= gate.cancel /\ ClientCancel(j) /\ Lab([c |-> "Cancel", job |-> j])
-  \/ Schedule /\ Lab([c |-> "Schedule"])
-  \/ \E w \in DOMAIN wk : SrvRecv(w) /\ Lab([c |-> "W2S", w |-> w])
-  \/ \E w \in DOMAIN wk : WkRecv(w) /\ Lab([c |-> "S2W", w |-> w])
-  \/ \E f \in fut : TaskExit(f, TRUE) /\ Lab([c |-> "Exit", w |-> f.w, t |-> f.t, ok |-> TRUE])
-  \/ \E f \in fut : depth >= gate.fail /\ TaskExit(f, FALSE) /\ Lab([c |-> "Exit", w |-> f.w, t |-> f.t, ok |-> FALSE])
-  \/ \E t \in DOMAIN task : ArmLaunchFail(t) /\ Lab([c |-> "FailLaunch", t |-> t])
-  \/ \E w \in DOMAIN srv : depth >= gate.lose /\ LoseWorker(w, TRUE) /\ Lab([c |-> "Lose", w |-> w, reason |-> "connection"])
-  \/ \E w \in DOMAIN srv : depth >= gate.lose /\ LoseWorker(w, FALSE) /\ Lab([c |-> "Lose", w |-> w, reason |-> "idle"])
+(* Abstract signature of a step: the kind of step and the situation of every task / worker it touches BEFORE the step   *)
+(* (core state of the task, whether a redirect exists and whether it points back to the same worker, whether the worker *)
+(* still has it, ...).  The engine keeps, from thousands of simulated behaviours, those that together cover every       *)
+(* signature several times, and replays them on the real code: one implementation test per kind of model transition.   *)
+TS(t) == IF t \in DOMAIN task THEN <<task[t].st, t \in DOMAIN redirect, t \in DOMAIN redirect /\ redirect[t].w = task[t].w>> ELSE <<"gone", FALSE, FALSE>>
+Bag(TT, f(_)) == [x \in {f(t) : t \in TT} |-> Cardinality({t \in TT : f(t) = x})]
+WS(w, t) == IF t \in wk[w].backlog THEN "backlog" ELSE IF t \in RunningTids(w) THEN "running" ELSE "gone"
+SigW2S(w) ==
+  LET m == Head(wk[w].w2s) IN
+  IF m.k = "Update"
+  THEN <<"Update", [i \in DOMAIN m.ups |-> IF m.ups[i].k = "Enable" THEN <<"Enable">>
+                                            ELSE <<m.ups[i].k, TS(m.ups[i].t), m.ups[i].t \in DOMAIN task /\ task[m.ups[i].t].w = w>>]>>
+  ELSE <<"RetractResponse", Bag(SeqSet(m.ids), TS), Len(m.ids)>>
+SigS2W(w) ==
+  LET m == Head(wk[w].s2w) IN
+  CASE m.k = "Compute" -> <<"Compute", [i \in DOMAIN m.tasks |-> <<m.tasks[i].v >= 0, m.tasks[i].t \in armedFail>>], wk[w].backlog # {}, wk[w].running # {}>>
+    [] m.k = "Retract" -> <<"Retract", Bag(SeqSet(m.ids), LAMBDA t : WS(w, t))>>
+    [] m.k = "Cancel" -> <<"Cancel", Bag(SeqSet(m.ids), LAMBDA t : WS(w, t)), wk[w].backlog # {}, wk[w].blocked # {}>>
+    [] OTHER -> <<m.k>>
+SigLose(w, fail) ==
+  <<fail, srv[w].kind, Bag(srv[w].assigned, TS), Bag(srv[w].prefilled, TS),
+    Bag({t \in DOMAIN task : task[t].st = "R" /\ task[t].w = w}, TS),
+    Cardinality({t \in srv[w].assigned \cap DOMAIN task : task[t].st = "X" /\ tinfo[t].climit # 0 /\ (tinfo[t].climit = -1 \/ task[t].crash + 1 >= tinfo[t].climit)})>>
+SigSchedule ==
+  <<Bag({t \in DOMAIN task \cap DOMAIN task' : task[t] # task'[t]},
+        LAMBDA t : <<task[t].st, task'[t].st, task[t].w # 0 /\ (task'[t].w = task[t].w \/ (t \in DOMAIN redirect' /\ redirect'[t].w = task[t].w))>>)>>
+SigExit(f, ok) == <<ok, wk[f.w].backlog # {}, wk[f.w].blocked # {}, Cardinality(wk[f.w].running)>>
+SigSubmit(i) ==
+  <<\E rq \in DOMAIN queue : queue[rq].hasPrefill /\ \E k \in DOMAIN Menu[i].tasks : Menu[i].tasks[k].prio > queue[rq].pprio,
+    \E rq \in DOMAIN queue : queue[rq].ready # {}>>
 
-SimSpec == SimInit /\ [][SimNext]_<<mvars, depth, lastAct, gate>>
+SimNext ==
+  \/ \E i \in DOMAIN Menu : ClientSubmit(i) /\ Lab([c |-> "Submit", spec |-> i - 1, job |-> Menu[i].job]) /\ sig' = <<"Submit", SigSubmit(i)>>
+  \/ \E j \in DOMAIN OpenJobs : ClientOpen(j) /\ Lab([c |-> "Open", job |-> j]) /\ sig' = <<"Open">>
+  \/ \E j \in DOMAIN OpenJobs : ClientClose(j) /\ Lab([c |-> "Close", job |-> j]) /\ sig' = <<"Close", NonTerminal(job[j]) = {}>>
+  \/ \E j \in DOMAIN job : depth >= gate.cancel /\ ClientCancel(j) /\ Lab([c |-> "Cancel", job |-> j]) /\ sig' = <<"Cancel", Bag(NonTerminal(job[j]), TS)>>
+  \/ Schedule /\ Lab([c |-> "Schedule"]) /\ sig' = <<"Schedule", SigSchedule>>
+  \/ \E w \in DOMAIN wk : SrvRecv(w) /\ Lab([c |-> "W2S", w |-> w]) /\ sig' = <<"W2S", SigW2S(w)>>
+  \/ \E w \in DOMAIN wk : WkRecv(w) /\ Lab([c |-> "S2W", w |-> w]) /\ sig' = <<"S2W", SigS2W(w)>>
+  \/ \E f \in fut : TaskExit(f, TRUE) /\ Lab([c |-> "Exit", w |-> f.w, t |-> f.t, ok |-> TRUE]) /\ sig' = <<"Exit", SigExit(f, TRUE)>>
+  \/ \E f \in fut : depth >= gate.fail /\ TaskExit(f, FALSE) /\ Lab([c |-> "Exit", w |-> f.w, t |-> f.t, ok |-> FALSE]) /\ sig' = <<"Exit", SigExit(f, FALSE)>>
+  \/ \E t \in DOMAIN task : ArmLaunchFail(t) /\ Lab([c |-> "FailLaunch", t |-> t]) /\ sig' = <<"FailLaunch">>
+  \/ \E w \in DOMAIN srv : depth >= gate.lose /\ LoseWorker(w, TRUE) /\ Lab([c |-> "Lose", w |-> w, reason |-> "connection"]) /\ sig' = <<"Lose", SigLose(w, TRUE)>>
+  \/ \E w \in DOMAIN srv : depth >= gate.lose /\ LoseWorker(w, FALSE) /\ Lab([c |-> "Lose", w |-> w, reason |-> "idle"]) /\ sig' = <<"Lose", SigLose(w, FALSE)>>
+
+SimSpec == SimInit /\ [][SimNext]_<<mvars, depth, lastAct, gate, sig>>
 
 Emit == PrintT(<<"ACT", depth, ToJson(lastAct)>>)
 =============================================================================
